@@ -203,6 +203,8 @@ where
     }
 }
 
+impl<B: poulpy_hal::layouts::Backend> GGLWEToGGSWKeyDecompress for poulpy_hal::layouts::Module<B> where Self: GGLWEDecompress {}
+
 // module-only API: decompression is provided by `GGLWEToGGSWKeyDecompress` on `Module`.
 
 /// Converts a compressed GGLWE-to-GGSW key to an immutably-borrowed variant.
@@ -226,6 +228,8 @@ where
 pub trait GGLWEToGGSWKeyCompressedToMut {
     /// Returns a mutably-borrowed view.
     fn to_mut(&mut self) -> GGLWEToGGSWKeyCompressed<&mut [u8]>;
+    /// Stores the PRNG seeds of entry `i` (the view returned by `to_mut` only holds copies of them).
+    fn set_seeds(&mut self, i: usize, seeds: &[[u8; 32]]);
 }
 
 impl<D: DataMut> GGLWEToGGSWKeyCompressedToMut for GGLWEToGGSWKeyCompressed<D>
@@ -236,5 +240,9 @@ where
         GGLWEToGGSWKeyCompressed {
             keys: self.keys.iter_mut().map(|c| c.to_mut()).collect(),
         }
+    }
+
+    fn set_seeds(&mut self, i: usize, seeds: &[[u8; 32]]) {
+        self.keys[i].seed.copy_from_slice(seeds);
     }
 }
